@@ -1,7 +1,15 @@
 use crate::Table;
 
+pub mod calls;
+pub mod sched;
+pub mod c01;
+pub mod c06;
+pub mod c08;
 pub mod c09;
 
 pub fn register(t: &mut Table) {
+    c01::register(t);
+    c06::register(t);
+    c08::register(t);
     c09::register(t);
 }
